@@ -1,6 +1,9 @@
 import AkVerif.Lemmas.CHTextEval
 import AkVerif.Lemmas.CHTextEq
 import AkVerif.Lemmas.CHTextFormat
+import AkVerif.Lemmas.CHTextHist
+import AkVerif.Lemmas.CHTextMake
+import AkVerif.Lemmas.CHTextSgr
 /-!
 # C08 — colored text behaves exactly like the underlying string
 
@@ -275,6 +278,125 @@ theorem eval_observe (a b : Expr) (τa τb : Ty) (ha : a.ty = some τa) (hb : b.
     | str s => rw [← htx] at hτ; simp [Part.ty] at hτ
     | list tp ps => rw [← htx] at hτ; simp [Part.ty] at hτ
 
+/-! ## `str()` and `format()` as strings: composition with the escape-sequence model of C09 -/
+
+/-- `str(text)` for any text of the model (so: after any operations), with any formatters whose
+sequences a terminal understands (`Palette.Shows`: C09 proves it for every constructible
+`ColorFmt`): the terminal shows exactly the cells of the text, each character with the attributes
+of the formatter it was created with, and ends in default state. `strip_colors(str(text))` is
+`plain_text()` -/
+theorem str_shows (P : Palette) (t : Text) (ht : NoEscText t) :
+    (P.Shows → Sgr.interp (strOf P t) = some (t.cells.map (fun x => (x.1, P.attr x.2)), Sgr.Attr.default)) ∧
+    (∀ k fin, P.Strippable k fin → Sgr.strip k fin (strOf P t) = t.cells.map (·.1)) := by
+  constructor
+  · intro hP
+    have := run_strOf P hP t ht []
+    simpa [Sgr.interp, Sgr.run, Sgr.prepend] using this
+  · intro k fin hP
+    have := strip_strOf P k fin hP t ht []
+    simpa [Sgr.strip_nil] using this
+
+/-- the hypotheses of `str_shows` are what C09 proves for the sequences of `ColorFmt`: for any
+assignment of valid formatter arguments to the colour ids there is a palette made of the emitted
+prefixes and suffixes which a terminal understands and `strip_colors` (any pattern class containing
+the parameter characters, final `m`) removes -/
+theorem palette_exists (specs : Colour → Sgr.Spec) (attrs : Colour → Sgr.Attr)
+    (h : ∀ c, Sgr.wantedAttr (specs c) = some (attrs c)) :
+    ∃ P : Palette, (∀ c, Sgr.mkSeq Sgr.std (specs c) = .ok (P.pre c, P.suf c)) ∧ P.attr = attrs ∧ P.Shows ∧
+      ∀ (k : Sgr.CharClass) (fin : Char), (∀ c ∈ ';' :: Sgr.codeAlphabet, k.mem c = true) → fin = 'm' →
+        k.mem fin = false → P.Strippable k fin := by
+  have hex := fun c => Sgr.mkSeq_shows (specs c) (attrs c) (h c)
+  refine ⟨⟨fun c => Classical.choose (hex c), fun c => Classical.choose (Classical.choose_spec (hex c)), attrs⟩,
+    ?_, rfl, ?_, ?_⟩
+  · intro c; exact (Classical.choose_spec (Classical.choose_spec (hex c))).1
+  · intro c; exact (Classical.choose_spec (Classical.choose_spec (hex c))).2
+  · intro k fin hk hfin hm c
+    exact Sgr.mkSeq_strippable k fin hk hfin hm (specs c) _ _
+      (Classical.choose_spec (Classical.choose_spec (hex c))).1
+
+/-- `strip_colors(format(text, spec))` is `format(plain_text, spec)` for every spec of the domain
+whose fill character is not ESC -/
+theorem format_str_strip (P : Palette) (k : Sgr.CharClass) (fin : Char) (hP : P.Strippable k fin)
+    (t : Text) (h : Canon t) (ht : NoEscText t) (sp : FmtSpec) (hv : sp.Valid) (hf : sp.fill ≠ Sgr.ESC) :
+    (formatStr P t sp.render).map (Sgr.strip k fin) = .ok (pyFormatStr (t.cells.map (·.1)) sp) := by
+  have hrep : ∀ n, Sgr.NoEsc (List.replicate n sp.fill) := by
+    intro n c hc
+    rw [(List.mem_replicate.mp hc).2]; exact hf
+  have hpad : ∀ n rest, Sgr.strip k fin (List.replicate n sp.fill ++ rest) =
+      List.replicate n sp.fill ++ Sgr.strip k fin rest := fun n rest => Sgr.strip_text k fin _ rest (hrep n)
+  have hend : ∀ n, Sgr.strip k fin (List.replicate n sp.fill) = List.replicate n sp.fill := by
+    intro n
+    have := hpad n []
+    simpa [Sgr.strip_nil] using this
+  unfold formatStr
+  rw [formatPads_render sp hv, h.2]
+  unfold pyFormatStr pyPad
+  simp only [List.length_map]
+  cases sp.align with
+  | left =>
+    simp only [Except.map, List.nil_append]
+    rw [strip_strOf P k fin hP t ht, hend]
+  | right =>
+    simp only [Except.map, List.append_nil]
+    rw [hpad, ← List.append_nil (strOf P t), strip_strOf P k fin hP t ht, Sgr.strip_nil, List.append_nil]
+  | center =>
+    simp only [Except.map, List.append_assoc]
+    rw [hpad, strip_strOf P k fin hP t ht, hend]
+
+/-! ## the chunk-list helpers used by the table printer -/
+
+/-- `CHText.make(chunks)` ("optimized constructor for internal use") shows the chunks' cells with
+a correct `len()` and neighbours of different colours; when no chunk is empty it satisfies the
+invariant and *is* the text the public constructor builds — with an empty chunk it does not (the
+empty chunk stays), which is why `make` is not a public operation of the property -/
+theorem make_spec (cs : List Chunk) :
+    (Text.make cs).cells = cellsOf cs ∧ LenOK (Text.make cs) ∧ NoAdjEq (Text.make cs).chunks ∧
+    ((∀ c ∈ cs, c.text ≠ []) → Canon (Text.make cs) ∧ Text.make cs = fromChunks cs) :=
+  ⟨make_cells cs, make_lenOK cs, mergeChunks_noAdj cs, make_eq_fromChunks cs⟩
+
+/-- `CHText.resize_chunks_list(chunks, n)` for `n ≥ 0`: the first `n` cells padded with
+default-coloured spaces, exactly `n` characters (`calc_chunks_len`); a negative `n` fails the
+assertion -/
+theorem resize_spec (cs : List Chunk) (n : Nat) (m : Int) (hm : m < 0) :
+    (∃ r, resizeChunks cs (n : Int) = .ok r ∧
+      cellsOf r = (cellsOf cs).take n ++ List.replicate (n - (cellsOf cs).length) (' ', 0) ∧
+      calcChunksLen r = n) ∧
+    resizeChunks cs m = .error .assertion ∧ calcChunksLen cs = (cellsOf cs).length :=
+  ⟨resizeChunks_spec cs n, by simp [resizeChunks, hm], calcChunksLen_eq cs⟩
+
+/-! ## histories over several objects (`Model/CHTextHist.lean`) -/
+
+/-- One statement of a history (`o_n = CHText(..)`, `o_k += p`, `o_n = o_a + p`, `p + o_a`,
+`o_a.join(..)`, `o_a[i:j]`, `o_a[i]`, `o_a.fixed_len(n)`, operands may mention any object, also the
+target) on a store whose objects satisfy the invariant: what all objects show afterwards is what
+the same statement gives on a store of plain sequences (same exceptions); all objects still satisfy
+the invariant; and the statement wrote exactly one object — `+=` its target, every other statement
+a new object at the end of the store (no operation returns or changes an operand). -/
+theorem hist_step (st : Store) (s : Stmt) (hc : AllCanon st) :
+    (exec st s).map cellsS = rexec (cellsS st) s ∧
+    ∀ st', exec st s = .ok st' → AllCanon st' ∧ StmtFrame st st' s :=
+  ⟨exec_cells st s hc, fun st' h => exec_inv st st' s hc h⟩
+
+/-- … and whole histories from the empty store (a raising statement leaves the store alone and
+the history goes on): after every statement every object shows what the plain sequences show and
+satisfies the invariant. Nothing observed is remembered from an earlier state: `str`, `format`,
+`plain_text`, `len` are functions of the current store -/
+theorem hist_run (ss : List Stmt) :
+    (run [] ss).map (fun r => r.map cellsS) = rrun [] ss ∧
+    ∀ st', .ok st' ∈ run [] ss → AllCanon st' :=
+  run_cells [] (fun _ h => by cases h) ss
+
+/-- a list operand is consumed element by element and an object is read when its turn comes:
+`t += [t, t]` leaves four copies of the text (the value reading `t + t + t` does not apply), while
+`t += t` and `t += [t]` are the value reading (`self_iadd`) -/
+theorem hist_self_twice (t : Text) (tp : Bool) :
+    (sIadd [t] 0 (.list tp [.obj 0, .obj 0])).map cellsS =
+      .ok [t.cells ++ t.cells ++ (t.cells ++ t.cells)] ∧
+    (sIadd [t] 0 (.obj 0)).map cellsS = .ok [t.cells ++ t.cells] ∧
+    (sIadd [t] 0 (.list tp [.obj 0])).map cellsS = .ok [t.cells ++ t.cells] := by
+  refine ⟨?_, ?_, ?_⟩ <;> rw [sIadd_cells] <;>
+    simp [rIadd, rIaddList, rGet, cellsS]
+
 /-! ## non-vacuity: concrete trees evaluated by the kernel -/
 
 /-- `(RED("ab") + "c")[-2:]` shows `b` in red and `c` in the default colour -/
@@ -305,6 +427,15 @@ example : EqDomain (.text (construct [.chunk ⟨1, ['a', 'b']⟩])) (.chunk ⟨1
     ¬ EqDomain (.chunk ⟨1, []⟩) (.str []) := by
   refine ⟨trivial, by decide +kernel, by decide +kernel, ?_⟩
   simp [EqDomain]
+/-- `make` keeps an empty chunk, the constructor drops it -/
+example : Text.make [⟨1, ['a']⟩, ⟨1, ['b']⟩, ⟨2, []⟩] = ⟨2, [⟨1, ['a', 'b']⟩, ⟨2, []⟩]⟩ ∧
+    fromChunks [⟨1, ['a']⟩, ⟨1, ['b']⟩, ⟨2, []⟩] = ⟨2, [⟨1, ['a', 'b']⟩]⟩ := by decide +kernel
+/-- a history: `a = CHText(RED("x"), "y"); b = a + GREEN("z"); a += "w"; c = a[1:]; a += a` — `b` keeps
+showing `xyz` -/
+example : ((run [] [.new [.chunk ⟨1, ['x']⟩, .str ['y']], .add 0 (.chunk ⟨2, ['z']⟩), .iadd 0 (.str ['w']),
+      .slice 0 (some 1) none, .iadd 0 (.obj 0)]).map (fun r => r.map cellsS)).getLast?
+    = some (.ok [[('x', 1), ('y', 0), ('w', 0), ('x', 1), ('y', 0), ('w', 0)], [('x', 1), ('y', 0), ('z', 2)],
+        [('y', 0), ('w', 0)]]) := by decide +kernel
 /-- `f"{RED('ab') + 'c':*^7}"` -/
 example : (FmtSpec.mk (some (some '*', .center)) ['7'] false).Valid := by
   refine ⟨?_, by decide⟩
